@@ -5,7 +5,7 @@ Model of `rlib/iter/src/{masks.rs, permutations.rs, neighbours.rs}`  (property C
 * **masks.rs** — a mask of a `w`-bit integer type is its bit pattern, a `Nat < 2^w`; signed and unsigned
   types of one width share the patterns (`IterMasks` never looks at the sign), the driver only *prints*
   them in the type's own notation.  `wrapping_sub(1)` / `wrapping_add(1)` are `wrappingSub1` /
-  `wrappingAdd1` (reduction mod `2^w`).  `std::iter::from_fn(next_…)` is the recursion `submasksFrom` /
+  `wrappingAdd1` (reduction mod `2^w`), `count_zeros()` is `countZeros` (bit-by-bit population count).  `std::iter::from_fn(next_…)` is the recursion `submasksFrom` /
   `supermasksFrom` (well-founded: Lean checks that the iterators terminate), `.chain([zero()])` /
   `.chain([ones()])` is the final `++ […]`.
 * **permutations.rs** — `&mut [T]` is a `List Int` returned as the new content.  `nextPermutationIdx`
@@ -37,11 +37,56 @@ def wrappingAdd1 (w s : Nat) : Nat := (s + 1) % 2 ^ w
 def nextSubmask (w s x : Nat) : Option (Nat × Nat) :=
   if s = 0 then none else some (s, wrappingSub1 w s &&& x)
 
-/-- `next_supermask(&mut self, x)`: `None` when `self.count_zeros() == 0` (for a `w`-bit pattern:
-    `s = ones w`; written `ones w ≤ s` so that the recursion below is total on every `Nat`),
-    else yield `cur` and step to `self.wrapping_add(1) | x`. -/
+/-- Number of set bits among the low `w` bits (`count_ones` of a `w`-bit pattern), bit by bit. -/
+def popcount : Nat → Nat → Nat
+  | 0, _ => 0
+  | w + 1, s => s % 2 + popcount w (s / 2)
+
+/-- `self.count_zeros()` of a `w`-bit pattern. -/
+def countZeros (w s : Nat) : Nat := w - popcount w s
+
+/-- `next_supermask(&mut self, x)`: `None` when `self.count_zeros() == 0`, else yield `cur` and step to
+    `self.wrapping_add(1) | x`. -/
 def nextSupermask (w s x : Nat) : Option (Nat × Nat) :=
-  if ones w ≤ s then none else some (s, wrappingAdd1 w s ||| x)
+  if countZeros w s = 0 then none else some (s, wrappingAdd1 w s ||| x)
+
+theorem popcount_le : ∀ w s, popcount w s ≤ w
+  | 0, _ => Nat.le_refl _
+  | w + 1, s => by
+    have := popcount_le w (s / 2)
+    simp only [popcount]
+    omega
+
+theorem mod_two_pow_succ (w s : Nat) : s % 2 ^ (w + 1) = s % 2 + 2 * (s / 2 % 2 ^ w) := by
+  rw [Nat.pow_succ, Nat.mul_comm, Nat.mod_mul]
+
+/-- All `w` low bits of `s` are set iff they form the all-ones pattern. -/
+theorem popcount_eq_iff : ∀ w s, popcount w s = w ↔ s % 2 ^ w = 2 ^ w - 1
+  | 0, s => by simp [popcount, Nat.mod_one]
+  | w + 1, s => by
+    have ih := popcount_eq_iff w (s / 2)
+    have hle := popcount_le w (s / 2)
+    have hpos : 0 < 2 ^ w := Nat.two_pow_pos w
+    have hlt : s / 2 % 2 ^ w < 2 ^ w := Nat.mod_lt _ hpos
+    have hp : 2 ^ (w + 1) = 2 * 2 ^ w := by rw [Nat.pow_succ, Nat.mul_comm]
+    rw [mod_two_pow_succ, hp]
+    simp only [popcount]
+    constructor
+    · intro h
+      have h1 : popcount w (s / 2) = w := by omega
+      have := ih.mp h1
+      omega
+    · intro h
+      have h1 : s / 2 % 2 ^ w = 2 ^ w - 1 := by omega
+      have := ih.mpr h1
+      omega
+
+/-- `count_zeros() == 0` says: the pattern is all-ones. -/
+theorem countZeros_eq_zero_iff (w s : Nat) : countZeros w s = 0 ↔ s % 2 ^ w = ones w := by
+  unfold countZeros ones
+  rw [← popcount_eq_iff]
+  have := popcount_le w s
+  omega
 
 theorem nextSubmask_lt {w s x cur s' : Nat} (h : nextSubmask w s x = some (cur, s')) : s' < s := by
   unfold nextSubmask at h
@@ -56,16 +101,25 @@ theorem nextSubmask_lt {w s x cur s' : Nat} (h : nextSubmask w s x = some (cur, 
     omega
 
 theorem nextSupermask_gt {w s x cur s' : Nat} (h : nextSupermask w s x = some (cur, s')) :
-    s < s' ∧ s < ones w := by
+    s % 2 ^ w < s' % 2 ^ w ∧ s' % 2 ^ w < 2 ^ w := by
   unfold nextSupermask at h
   split at h
   · cases h
   · rename_i hs
     simp only [Option.some.injEq, Prod.mk.injEq] at h
     rw [← h.2]
-    have h1 : wrappingAdd1 w s ≤ wrappingAdd1 w s ||| x := Nat.left_le_or
-    have h2 : wrappingAdd1 w s = s + 1 := by
-      unfold wrappingAdd1; unfold ones at hs; exact Nat.mod_eq_of_lt (by omega)
+    rw [countZeros_eq_zero_iff] at hs
+    have hpos : 0 < 2 ^ w := Nat.two_pow_pos w
+    have hlt : s % 2 ^ w < 2 ^ w := Nat.mod_lt _ hpos
+    refine ⟨?_, Nat.mod_lt _ hpos⟩
+    have h1 : wrappingAdd1 w s % 2 ^ w ≤ (wrappingAdd1 w s ||| x) % 2 ^ w := by
+      rw [Nat.or_mod_two_pow]; exact Nat.left_le_or
+    have h2 : wrappingAdd1 w s % 2 ^ w = s % 2 ^ w + 1 := by
+      unfold wrappingAdd1 ones at *
+      rw [Nat.mod_mod, Nat.add_mod]
+      have h1' : 1 % 2 ^ w = 1 := Nat.mod_eq_of_lt (by omega)
+      rw [h1']
+      exact Nat.mod_eq_of_lt (by omega)
     omega
 
 set_option linter.unusedVariables false in
@@ -83,7 +137,7 @@ def supermasksFrom (w s x : Nat) : List Nat :=
   match h : nextSupermask w s x with
   | none => []
   | some (cur, s') => cur :: supermasksFrom w s' x
-termination_by ones w - s
+termination_by 2 ^ w - s % 2 ^ w
 decreasing_by have := nextSupermask_gt h; omega
 
 /-- `iter_submasks(x)` collected. -/
